@@ -418,11 +418,10 @@ def oracle(case, impl):
         elif d2 != d1:
             out.append("print -> parse does not give back the description: " + _first_diff(d1, d2) + "  printed: " + repr(bytes.fromhex(t2).decode("utf-8", "replace"))[:300])
     else:
-        if impl in ("ERR", "NOT-UTF8"):
-            return out
-        m = re.match(r"D1=(.*)\tT2=(\S*)\tD2=(.*)\tSH=", impl)
-        if m and m.group(3) != m.group(1):
-            out.append("accepted text does not survive print -> parse: " + _first_diff(m.group(1), m.group(3)) + "  printed: " + repr(bytes.fromhex(m.group(2)).decode("utf-8", "replace"))[:300])
+        # arbitrary text: the property demands a description or an error, never a panic (checked above).  Whether an
+        # accepted text survives print -> parse is NOT demanded: the parser accepts values outside the field grammar
+        # (e.g. "raddr |x" yields an empty host name) that have no faithful text form; see DESIGN.md (false alarm corrected)
+        pass
     return out
 
 
